@@ -21,6 +21,8 @@ ASSUMPTIONS = [
     "partition/flat_map/map results are compared as lists of elements (the result kind for non-list inputs is not asserted)",
     "split with an empty separator and whitespace other than space/tab/LF are not generated (Rust and Python differ, docs silent)",
     "group_all is compared as a set of groups, each group in input order",
+    "min / max with a comparator return the first of several tied extrema (what the one-line fold definition gives and what "
+    "the plain and variadic forms do; observed, the builtin's help text is silent)",
 ]
 
 
@@ -244,6 +246,19 @@ def spec(c):
         return "product(%s)" % S, p, "eq"
     if fn in ("min", "max"):
         return "%s(%s)" % (fn, S), (el((min if fn == "min" else max)(xs)) if xs else Err), "eq"
+    if fn in ("min_cmp", "max_cmp"):
+        # comparator form over [value, position] pairs: the straightforward fold (replace the running best only when the
+        # candidate compares strictly better) returns the FIRST of several tied extrema, like the plain forms do
+        src, f = CMPF[cb]
+        pairs = [[x, i] for i, x in enumerate(xs)]
+        if not pairs:
+            return "%s(%s, \\p, q -> %s(p[0], q[0]))" % (fn[:3], render(pairs), src), Err, "eq"
+        best = pairs[0]
+        for p_ in pairs[1:]:
+            c_ = f(p_[0], best[0])
+            if (c_ > 0) if fn == "max_cmp" else (c_ < 0):
+                best = p_
+        return "%s(%s, \\p, q -> %s(p[0], q[0]))" % (fn[:3], render(pairs), src), best, "eq"
     if fn == "sort":
         return "sort(%s)" % S, same(sorted(xs)), "eq"
     if fn == "sort_cmp":
@@ -369,7 +384,7 @@ TABLE = {
     "take_while": (NUMK, PRED), "drop_while": (NUMK, PRED), "zip": (NUMK, None), "zip3": (NUMK, None), "zip_with": (NUMK, BINF),
     "ziplongest": (NUMK, None), "ziplongest_with": (NUMK, BINF), "pairwise": (NUMK, BINF), "transpose": (["list"], None),
     "enumerate": (ALLK, None), "fold": (NUMK, BINF), "fold_from": (NUMK, BINF), "scan": (NUMK, BINF), "scan_from": (NUMK, BINF),
-    "sum": (NUMK, None), "product": (NUMK, None), "min": (ALLK, None), "max": (ALLK, None), "sort": (SEQK + ["stream"], None),
+    "sum": (NUMK, None), "product": (NUMK, None), "min": (ALLK, None), "max": (ALLK, None), "min_cmp": (["list"], CMPF), "max_cmp": (["list"], CMPF), "sort": (SEQK + ["stream"], None),
     "sort_cmp": (["list", "vector", "bytes", "stream"], CMPF), "sort_on": (["list"], KEYF), "sort_pairs_stable": (["list"], CMPF),
     "reverse": (ALLK, None), "unique": (ALLK, None), "group": (SEQK, None), "group_rel": (["list", "vector", "bytes"], REL),
     "group_n": (SEQK, None), "group'": (SEQK, None), "group_all": (["list"], KEYF), "window": (SEQK, None), "prefixes": (SEQK, None),
@@ -383,7 +398,7 @@ PRELUDE = ["ls := \\v -> if (v is stream) list(v) else v"]
 
 def nontrivial(c):
     xs = c["xs"]
-    return (not xs or c["kind"] != "list" or (len(set(xs)) < len(xs) and c["fn"] in ("sort", "sort_cmp", "sort_on", "sort_pairs_stable", "unique", "group", "group_all", "frequencies"))
+    return (not xs or c["kind"] != "list" or (len(set(xs)) < len(xs) and c["fn"] in ("sort", "sort_cmp", "sort_on", "sort_pairs_stable", "unique", "group", "group_all", "frequencies", "min_cmp", "max_cmp"))
             or c.get("n", 0) >= len(xs) or c["fn"].endswith("_throw"))
 
 
